@@ -25,7 +25,11 @@ func genTxs(r *vh.RNG) string {
 	n := r.Range(1, 2)
 	var p []string
 	for i := 0; i < n; i++ {
-		p = append(p, fmt.Sprintf("%d-%d-%d", r.Intn(nKeys), r.Intn(nKeys), r.Range(1, 9)))
+		if r.Chance(30) {
+			p = append(p, fmt.Sprintf("%d-b-0", r.Intn(nKeys))) // BLOCKHASH of the two nearest ancestors into storage
+		} else {
+			p = append(p, fmt.Sprintf("%d-%d-%d", r.Intn(nKeys), r.Intn(nKeys), r.Range(1, 9)))
+		}
 	}
 	return strings.Join(p, ",")
 }
@@ -187,6 +191,59 @@ func genCase(r *vh.RNG, mode string, maxDepth int, crashAll bool) []string {
 		if len(segs) > 1 {
 			lines = append(lines, fmt.Sprintf("X %d", r.Intn(len(segs)-1)))
 		}
+	}
+	return lines
+}
+
+// long forks offered in ONE call to a node on another branch (the ucon side-chain verifier re-executes them before any
+// of them is stored): prefix p, branch X of x blocks imported first, then branch Y of y blocks; every block of Y calls the
+// BLOCKHASH contract, and in strict mode every block runs the end-block hook.
+func forkCase(mode string, p, x, y int, crashLast bool) []string {
+	lines := []string{"MODE " + mode}
+	id := 1
+	par := 0
+	var pre, xs, ys []int
+	for i := 0; i < p; i++ {
+		lines = append(lines, fmt.Sprintf("N %d %d 1 3 %d-b-0", id, par, i%nKeys))
+		pre = append(pre, id)
+		par = id
+		id++
+	}
+	fork := par
+	for i := 0; i < x; i++ {
+		lines = append(lines, fmt.Sprintf("N %d %d 1 3 -", id, par))
+		xs = append(xs, id)
+		par = id
+		id++
+	}
+	par = fork
+	for i := 0; i < y; i++ {
+		lines = append(lines, fmt.Sprintf("N %d %d 2 2 %d-b-0", id, par, i%nKeys))
+		ys = append(ys, id)
+		par = id
+		id++
+	}
+	call := func(ids []int) {
+		if len(ids) == 0 {
+			return
+		}
+		l := "I"
+		for _, i := range ids {
+			l += fmt.Sprintf(" %d", i)
+		}
+		lines = append(lines, l)
+	}
+	n := 0
+	if len(pre)+len(xs) > 0 {
+		call(append(append([]int{}, pre...), xs...))
+		n++
+	}
+	call(ys)
+	if crashLast {
+		lines = append(lines, fmt.Sprintf("X %d", n))
+	}
+	if y > x {
+		lines = append(lines, fmt.Sprintf("P expecthead %d", ys[len(ys)-1]))
 	}
 	return lines
 }
